@@ -151,14 +151,16 @@ def w_case_term(c, out):
 
 
 def w_gen_case(r):
-    hist = r.choice([0, 0, 1, 2, 3]) if r.random() < 0.95 else r.choice([4, 5])
-    mspi = r.choice([-1, 1, 2, 3, 4]) if r.random() < 0.7 else -1
-    if hist and mspi > 0 and mspi < hist and r.random() < 0.8:
+    hist = r.choice([1, 2, 2, 3]) if r.random() < 0.6 else 0
+    if r.random() < 0.04:
+        hist = r.choice([4, 5])
+    mspi = r.choice([1, 2, 3, 4]) if r.random() < 0.5 else -1
+    if hist and 0 < mspi < hist and r.random() < 0.8:
         mspi = hist                      # mostly consistent QoS, sometimes depth > mspi
-    ms = r.choice([-1, 1, 2, 3, 4, 6]) if r.random() < 0.7 else -1
+    ms = r.choice([1, 2, 3, 4, 6, 8]) if r.random() < 0.5 else -1
     if ms > 0 and mspi > 0 and ms < mspi and r.random() < 0.8:
         ms = mspi
-    mi = r.choice([-1, 1, 2, 3]) if r.random() < 0.6 else -1
+    mi = r.choice([1, 2, 3]) if r.random() < 0.4 else -1
     if r.random() < 0.03:
         ms, mi, mspi = r.choice([(0, -1, -1), (-1, 0, -1), (-1, -1, 0)])
     life = -1 if r.random() < 0.7 else r.choice([0, 5, 10, 50])
@@ -205,7 +207,7 @@ def extra(ctx, binary):
     if wbin is None:
         ctx.broken.append("writer harness c19w does not build against the current /repo tree: " + out[-600:])
         return
-    n = {"quick": 1500, "thorough": 20000}.get(ctx.tier, 1500)
+    n = {"quick": 1000, "thorough": 20000}.get(ctx.tier, 1000)
     cases = w_corpus() + [w_gen_case(ctx.rng) for _ in range(n)]
     lines = [w_case_line(c) for c in cases]
     outs = _core.run_harness(wbin, "c19w", lines)
@@ -239,6 +241,8 @@ def extra(ctx, binary):
     ctx.cov["writer_evaluations"] = len(cases)
     ctx.cov["writer_model_disagreements"] = len(model_bad)
     ctx.cov["writer_refused_writes"] = sum(o.count("| 1 n") + o.startswith("1 n") for o in outs)
+    ctx.cov["writer_accepted_writes"] = (sum(o.count("| 0 n") + o.startswith("0 n") for o in outs)
+                                         - sum(1 for c in cases for o in c[1] if o[0] == "P"))
     ctx.cov["writer_known_class_cases"] = len(oracle_bad) - len(bad)
     ctx.cov["writer_rule"] = ("a case is a writer QoS (KEEP_ALL or KEEP_LAST 1-5, max_samples/max_instances/"
                               "max_samples_per_instance unlimited or 0-6, lifespan infinite or 0-50 ns) plus 1-30 "
